@@ -296,3 +296,47 @@ func zzSameStore(a, b *vrt.Store) bool {
 	}
 	return true
 }
+
+// ZZ_C06_OracleHolders: the epoch boundary with holder claims, executed on two copies of the same state; Go's map
+// iteration order (holdersTally, GetNormalizedValPowers) is chosen independently for each copy.
+func ZZ_C06_OracleHolders() {
+	E := 1 + vrt.Uint64Below("epoch", 1<<56)
+	build := func() *zzEnv {
+		env := zzNewEnv(5)
+		k, ctx := env.k, env.ctx
+		k.setCurrentEpoch(ctx, E)
+		for i := 0; i < 3; i++ {
+			s := string(rune('0' + i))
+			oper := sdk.ValAddress(vrt.Bytes("oper"+s, 20))
+			for _, o := range env.staking.Vals {
+				vrt.Assume(!o.Oper.Equals(oper))
+			}
+			env.staking.Vals = append(env.staking.Vals, zzVal{Oper: oper, Power: int64(1 + vrt.Uint64Below("power"+s, 12)), Bonded: true})
+		}
+		srv := msgServer{Keeper: k}
+		for i := 0; i < 3; i++ {
+			s := string(rune('0' + i))
+			if (i == 2 && !vrt.Thorough()) || !vrt.Bool("claims"+s) {
+				continue
+			}
+			msg := &types.MsgHoldersClaim{Epoch: E, Holders: zzHolders(vrt.Choose("variant"+s, 2)), Orchestrator: sdk.AccAddress(env.staking.Vals[i].Oper).String()}
+			srv.HoldersClaim(sdk.WrapSDKContext(ctx), msg)
+		}
+		return env
+	}
+	rounds := 1
+	if !vrt.Symbolic() {
+		rounds = 64
+	}
+	for r := 0; r < rounds; r++ {
+		a, b := build(), build()
+		a.k.ProcessCurrentEpoch(a.ctx)
+		b.k.ProcessCurrentEpoch(b.ctx)
+		vrt.Reach("c06.oracle.holders")
+		same := zzSameStore(a.store(), b.store()) && len(a.ctx.EventManager().Events()) == len(b.ctx.EventManager().Events())
+		vrt.Assert("c06.oracle.holders.same-state-and-events", same)
+		if !same {
+			return
+		}
+	}
+}
